@@ -90,7 +90,7 @@ def decl_stats(spec):
     """per test: number of declarations of layer / level on its path."""
     out = {}
     for m in spec['modules']:
-        def walk(node, nl, nv, levels):
+        def walk(node, nl, nv, levels, flat=False):
             if node.get('layer') is not None:
                 nl += 1
             if node.get('level') is not None:
@@ -98,10 +98,13 @@ def decl_stats(spec):
             if node['t'] == 'class':
                 for t in node['tests']:
                     out['%s.%s.%s' % (m['name'], node['name'], t['name'])] = \
-                        (nl, nv)
+                        (nl + (1 if flat and t.get('ilayer') is not None
+                               else 0),
+                         nv + (1 if flat and t.get('ilevel') is not None
+                               else 0))
             else:
                 for ch in node.get('ch', []):
-                    walk(ch, nl, nv, levels)
+                    walk(ch, nl, nv, levels, bool(node.get('flat')))
         walk(m['suite'], 0, 0, [])
     return out
 
@@ -219,7 +222,7 @@ def run_case(case):
     layers = gen.random_layer_graph(rng, nmax=3, nmin=1, p_hook=0.7)
     spec = gen.nested_world(rng, prefix, layers=layers, nmods=(1, 3),
                             depth=(0, 3), levels=(None, -1, 0, 1, 2, 3),
-                            p_layer=0.45, p_level=0.45)
+                            p_layer=0.45, p_level=0.45, p_flat=0.35)
     decl = decl_stats(spec)
     all_tests = {tid: (layer, level) for tid, ts, layer, level, m, node
                  in vworld.iter_tests(spec)}
@@ -231,6 +234,18 @@ def run_case(case):
     def C(k, n=1):
         counters[k] = counters.get(k, 0) + n
 
+    def count_flat(node, flat=False):
+        if node['t'] == 'class':
+            if flat:
+                C('tests_in_flat_suites', len(node['tests']))
+                C('instance_declared_tests', sum(
+                    1 for t in node['tests'] if t.get('ilayer') is not None
+                    or t.get('ilevel') is not None))
+        else:
+            for ch in node.get('ch', []):
+                count_flat(ch, bool(node.get('flat')))
+    for m in spec['modules']:
+        count_flat(m['suite'])
     try:
         for _ in range(case['nopts']):
             opts = gen_opts(rng, spec)
